@@ -1971,7 +1971,12 @@ impl<T: PPGEvaluatorStrategy> PPGEvaluator<T> {
     fn propagate_job_required(dag: &mut GraphType, jobs: &mut [NodeInfo], node_idx: NodeIndex) {
         // explicit stack instead of recursion: ephemeral chains can be arbitrarily long
         let mut todo = vec![node_idx];
+        // a job's incoming edges need marking only once, no matter how many paths lead to it
+        let mut seen: HashSet<NodeIndex> = HashSet::new();
         while let Some(idx) = todo.pop() {
+            if !seen.insert(idx) {
+                continue;
+            }
             let upstreams: Vec<_> = dag.neighbors_directed(idx, Direction::Incoming).collect();
             for upstream_idx in upstreams {
                 dag.edge_weight_mut(upstream_idx, idx).unwrap().required = Required::Yes;
